@@ -144,6 +144,8 @@ pub struct ClientOut {
     pub via: &'static str,
     pub bytes: Vec<u8>,
     pub result: Result<usize, std::io::ErrorKind>,
+    /// Address the datagram was sent to.
+    pub target: SocketAddr,
 }
 
 #[derive(Clone, Debug)]
@@ -211,6 +213,8 @@ pub struct StepCtx<'a> {
     pub has_connected_pre: bool,
     pub last_selected_pre: Option<usize>,
     pub client_addr_pre: Option<SocketAddr>,
+    /// Source address the SRT endpoint's datagrams carry in this step.
+    pub client_src: SocketAddr,
     pub critical_pre: bool,
     pub env: &'a Env,
     pub plan: &'a LPlan,
@@ -456,7 +460,7 @@ pub fn install_interceptors(seam: &SeamHandle) {
         })
     })));
     let s2 = seam.clone();
-    net_hooks::set_client_interceptor(Some(Box::new(move |call, buf, _target| {
+    net_hooks::set_client_interceptor(Some(Box::new(move |call, buf, target| {
         s2.with(|s| {
             let mut result: Result<usize, std::io::ErrorKind> = Ok(buf.len());
             if let Some(pos) = s.client_faults.iter().position(|f| f.remaining > 0) {
@@ -490,6 +494,7 @@ pub fn install_interceptors(seam: &SeamHandle) {
                 },
                 bytes: buf.to_vec(),
                 result,
+                target,
             });
             Some(match result {
                 Ok(n) => Ok(n),
@@ -883,6 +888,12 @@ impl<'p> Sim<'p> {
                     self.stats.inc("fault.blackhole_on");
                 }
             }
+            Action::DropReg2 { link, on } => {
+                self.env.set_drop_reg2(link, on);
+                if on {
+                    self.stats.inc("fault.handshake_replies_lost_on");
+                }
+            }
             Action::LinkLoss { link, on } => {
                 self.env.set_blackhole(link, true, true, on);
                 if on {
@@ -977,6 +988,10 @@ impl<'p> Sim<'p> {
                 self.stats.inc("fault.sender_stall");
                 let t = self.now + ms;
                 self.set_now(t);
+            }
+            Action::ClientRebind { port } => {
+                self.client_addr = SocketAddr::new("127.0.0.1".parse().unwrap(), port);
+                self.stats.inc("fault.client_rebind");
             }
             Action::SetWindow { link, window } => {
                 if let Some(c) = self.world.conns.get_mut(link) {
@@ -1216,13 +1231,14 @@ impl<'p> Sim<'p> {
             self.established_own = true;
         }
         // Mirrored instant-forward task: drain the channel to the client socket.
-        while let Ok((_addr, pkt)) = self.world.instant_rx.try_recv() {
+        while let Ok((addr, pkt)) = self.world.instant_rx.try_recv() {
             self.seam.with(|s| {
                 s.client.push(ClientOut {
                     t: srtla_core::utils::now_ms(),
                     via: "instant",
                     bytes: pkt.to_vec(),
                     result: Ok(pkt.len()),
+                    target: addr,
                 })
             });
         }
@@ -1273,12 +1289,17 @@ impl<'p> Sim<'p> {
                 .iter()
                 .map(|v| {
                     format!(
-                        "[{} w={} if={} q={}{}]",
+                        "[{} w={} if={} q={}{}{}]",
                         if v.connected { "C" } else { "-" },
                         v.window,
                         v.in_flight,
                         v.queued,
-                        if v.private.stall_gated { " G" } else { "" }
+                        if v.private.stall_gated { " G" } else { "" },
+                        if std::env::var("VERIF_REPLAY_FULL").is_ok() {
+                            format!(" heard={:?} att={:?}", v.last_received.map(|t| self.now.saturating_sub(t)), self.now.saturating_sub(v.last_attempt_ms))
+                        } else {
+                            String::new()
+                        }
                     )
                 })
                 .collect();
@@ -1327,6 +1348,7 @@ impl<'p> Sim<'p> {
                 has_connected_pre,
                 last_selected_pre,
                 client_addr_pre,
+                client_src: self.client_addr,
                 critical_pre,
                 env: &self.env,
                 plan: self.plan,
